@@ -789,8 +789,10 @@ def grid_forms(c, r, tolc, pmf_):
                     bad.append(('optimize_base_stock_levels|grid-form|level-not-optimal-on-user-grid', '%s: stage %d level %r has cost %r (levels below %r), level %r on the grid has %r'
                                 % (what, j, vec[j - 1], cost[vec[j - 1]], vec[:j - 1], best, cost[best])))
                     break
-            if lo <= min(lv.values()) and max(lv.values()) <= hi and not (ulv == lv and rel_close(a[2], Cstar, 1e-9)):
-                if not rel_close(a[2], Cstar, 1e-9) or not rel_close(topdown(c, pmf_, vec), topdown(c, pmf_, [lv[j] for j in range(1, N + 1)]), 1e-9):
+            # (costs compared at the tolerance of the demand family: for truncated infinite-support demand the implementation's truncation moves with the grid,
+            # e.g. Poisson(2): 54.21530624 on -1..33 vs 54.21530402 on the default grid -26..25 for the same levels - the documented truncation error, not a violation)
+            if lo <= min(lv.values()) and max(lv.values()) <= hi and not (ulv == lv and rel_close(a[2], Cstar, tol)):
+                if not rel_close(a[2], Cstar, tol) or not rel_close(topdown(c, pmf_, vec), topdown(c, pmf_, [lv[j] for j in range(1, N + 1)]), tol):
                     bad.append(('optimize_base_stock_levels|grid-form|user-grid-containing-optimum-changes-result', '%s: %r vs default grid %d..%d: %r' % (what, a[1:3], X0, X1, (lv, Cstar))))
     v = g['single']; a = run(np.array([v]))
     if a[0] == 'err' or any(a[1][j] != v for j in a[1]) or not rel_close(a[2], topdown(c, pmf_, [v] * N), tol):
